@@ -1,6 +1,7 @@
 package main
 
 import (
+	"verif/harness/internal/c14"
 	"verif/harness/internal/c13"
 	"verif/harness/internal/c01"
 	"verif/harness/internal/c16"
@@ -21,6 +22,8 @@ import (
 )
 
 func init() {
+	checks["C14"] = c14.Run
+	workers["c14"] = c14.Worker
 	checks["C13"] = c13.Run
 	workers["c13"] = c13.Worker
 	checks["C01"] = c01.Run
